@@ -1,6 +1,7 @@
 package symex
 
 import (
+	"fmt"
 	"path/filepath"
 	"strconv"
 	"strings"
@@ -190,6 +191,69 @@ func registerStringStubs(ex *Exec) {
 		id := ex.newObj(st, &ArrayV{E: e})
 		ln := smt.Ite(none, bv64(1), smt.Ite(one, bv64(2), bv64(3)))
 		return &SliceV{Obj: id, Len: ln, Cap: 3, MaxLen: 3}
+	}
+	// fmt.Sscanf, only the shape "x%x" into one *uint16 (a hex code after a literal x): concrete inputs go through the
+	// real function; for symbolic inputs the maximal run of hex digits after the x is read and whatever follows it
+	// is left unread, as the real function does (its tolerance for a sign or spaces before the digits is not modelled)
+	S["fmt.Sscanf"] = func(ex *Exec, st *State, site ssa.Instruction, fn *ssa.Function, args []Value) Value {
+		format, okF := args[1].(*StrV).Concrete()
+		targets, okT := args[2].(*SliceV)
+		if !okF || !okT || format != "x%x" || !targets.Len.IsConst() || targets.Len.V != 1 {
+			panic(unsupported("fmt.Sscanf with a format other than \"x%x\" and one target"))
+		}
+		tv, ok := ex.sliceElems(st, targets)[0].(*IfaceV)
+		if !ok {
+			panic(unsupported("fmt.Sscanf target"))
+		}
+		ptr, ok := tv.V.(*PtrV)
+		if !ok || tv.T == nil || tv.T.String() != "*uint16" {
+			panic(unsupported("fmt.Sscanf target other than *uint16"))
+		}
+		mkErr := func() Value { return &IfaceV{T: nil, V: ex.newOpaque("error")} }
+		sv := args[0].(*StrV)
+		if cs, ok := sv.Concrete(); ok {
+			var v uint16
+			n, err := fmt.Sscanf(cs, "x%x", &v)
+			if err != nil {
+				return &TupleV{E: []Value{bv64(int64(n)), mkErr()}}
+			}
+			ex.store(st, site, ptr, smt.Const(16, uint64(v)))
+			return &TupleV{E: []Value{bv64(int64(n)), Nil}}
+		}
+		n := len(sv.B)
+		if n > 15 {
+			panic(unsupported("fmt.Sscanf on a symbolic string longer than 15 bytes"))
+		}
+		hexVal := func(b *smt.Term) (*smt.Term, *smt.Term) {
+			isD := inRange(b, '0', '9')
+			isL := inRange(b, 'a', 'f')
+			isU := inRange(b, 'A', 'F')
+			v := smt.Ite(isD, smt.Sub(b, smt.Const(8, '0')), smt.Ite(isL, smt.Sub(b, smt.Const(8, 'a'-10)), smt.Sub(b, smt.Const(8, 'A'-10))))
+			return smt.ZExt(v, 64), smt.Or(isD, smt.Or(isL, isU))
+		}
+		okAny := smt.False
+		val := bv64(0)
+		// digits at positions 1..k (k >= 1) are hex, position k+1 is not hex or past the end
+		for k := 1; k < n; k++ {
+			c := smt.And(smt.Ugt(sv.Len, bv64(int64(k))), smt.Eq(sv.B[0], smt.Const(8, 'x')))
+			v := bv64(0)
+			for j := 1; j <= k; j++ {
+				d, isH := hexVal(sv.B[j])
+				c = smt.And(c, isH)
+				v = smt.Add(smt.Mul(v, bv64(16)), d)
+			}
+			if k+1 < n {
+				_, nextH := hexVal(sv.B[k+1])
+				c = smt.And(c, smt.Or(smt.Eq(sv.Len, bv64(int64(k+1))), smt.Not(nextH)))
+			} else {
+				c = smt.And(c, smt.Eq(sv.Len, bv64(int64(k+1))))
+			}
+			c = smt.And(c, smt.Ule(v, bv64(0xffff)))
+			val = smt.Ite(c, v, val)
+			okAny = smt.Or(okAny, c)
+		}
+		ex.guarded(st, okAny, func(st *State) { ex.store(st, site, ptr, smt.Extract(val, 15, 0)) })
+		return &TupleV{E: []Value{smt.Ite(okAny, bv64(1), bv64(0)), mergeV(okAny, Nil, mkErr())}}
 	}
 	S["strconv.ParseUint"] = func(ex *Exec, st *State, site ssa.Instruction, fn *ssa.Function, args []Value) Value {
 		sv := args[0].(*StrV)
